@@ -1,4 +1,171 @@
-def run(ctx):
-    pass
+"""C07 integration leg: `_worker_snapshots` inside every StatefulDataLoader checkpoint equals the state the
+worker's dataset (or dataset iterator) had right after producing the last of its batches handed to the user
+as of the checkpoint's snapshot step.  Datasets whose state evolves IN PLACE (a growing list, a tensor
+counter) are used so that aliasing / late serialisation shows; the expected value is computed from the
+number of items of that worker yielded so far (the datasets' states are functions of their position)."""
+from __future__ import annotations
+
+import gc
+import pickle
+import random
+from typing import Any, Dict, List
+
+import torch
+
+from .. import sdl, vsched
+from ..core import Ctx
+from . import sdl_ko
+
+
+def expected_state(cfg, w: int, c: int, gen: int = 0):
+    k = cfg["kind"]
+    if k == "iter_bump":
+        return ("dataset_state", {"i": c, "gen": gen})
+    if k == "iter_inplace":
+        return ("dataset_state", {"i": c, "buf": list(range(c)), "t": [c]})
+    if k in ("iter_ds_state", "iter_selfiter", "iter_ds_eager"):
+        return ("dataset_state", {"i": c})
+    if k == "iter_it_state":
+        return ("iter_state", {"i": c, "nested": {"half": c // 2} if c % 3 else {}})
+    if k == "map_stateful":
+        return ("dataset_state", {"calls": c})
+    return None
+
+
+def _canon(x):
+    if isinstance(x, torch.Tensor):
+        return x.tolist()
+    if isinstance(x, dict):
+        return {k: _canon(v) for k, v in x.items() if k != "done"}
+    if isinstance(x, list):
+        return [_canon(v) for v in x]
+    return x
+
+
+def _verify(cfg, sd, yielded, W, epoch, gen, resumed_from=None):
+    snap = sd["_snapshot"]
+    n_s = snap["_snapshot_step"]
+    counts = [0] * W
+    if sdl.is_iter(cfg):
+        for b in yielded[:n_s]:
+            for x in b:
+                counts[x // 1000] += 1
+    else:
+        # map-style: task t goes to worker t % W (all workers live), batch sizes known
+        for t, b in enumerate(yielded[:n_s]):
+            counts[t % W] += len(b)
+    base = None
+    if resumed_from is not None:
+        base = [0] * W
+        for t, b in enumerate(resumed_from):
+            for x in b:
+                base[x // 1000 if sdl.is_iter(cfg) else t % W] += 1 if sdl.is_iter(cfg) else 0
+            if not sdl.is_iter(cfg):
+                base[t % W] += len(b)
+    for w in range(W):
+        exp = expected_state(cfg, w, counts[w], gen)
+        if exp is None:
+            continue
+        if base is not None and counts[w] <= base[w] and cfg["kind"] != "iter_bump":
+            continue  # no batch of this worker was handed out since the resume: its pre-batch state is dataset specific (re-arming)
+        ws = snap["_worker_snapshots"]["worker_%d" % w]
+        got = ws["dataset_state"] if exp[0] == "dataset_state" else (ws["fetcher_state"] or {}).get("dataset_iter_state")
+        if cfg["kind"] == "map_stateful" and (cfg.get("persistent") and epoch > 0 or gen > 0):
+            continue  # call counter keeps growing across epochs on persistent workers / is restored on resume
+        if epoch > 0 and counts[w] == 0 and cfg.get("persistent"):
+            continue  # a reused worker's dataset re-arms itself lazily: its pre-epoch state is its previous end state
+        if _canon(got) != exp[1]:
+            return (epoch, len(yielded), w, _canon(got), exp[1], n_s)
+    return None
+
+
+def check(ctx: Ctx, job):
+    cfg, seed, pol = job["cfg"], job["seed"], job["policy"]
+    W = cfg["W"]
+    sess = sdl_ko.session_for(pol, seed, W)
+    bad = None
+    resume_at = job.get("resume_at")
+    saved = None
+    with sess as s:
+        torch.manual_seed(5)
+        loader = sdl.build(cfg)
+        for epoch in range(2):
+            it = iter(loader)
+            sdl_ko._apply_starve(sess, s)
+            yielded: List[List[int]] = []  # per yield: items
+            while True:
+                s.begin_op()
+                sd = loader.state_dict()
+                bad = _verify(cfg, sd, yielded, W, epoch, 0)
+                if bad:
+                    break
+                if epoch == 0 and resume_at is not None and len(yielded) == resume_at:
+                    saved = (pickle.dumps(sd), list(yielded))
+                o = sdl.take(it, s)
+                if o[0] != "item":
+                    break
+                b = o[1] if isinstance(o[1], list) else [o[1]]
+                yielded.append(b)
+            if bad:
+                break
+        del loader, it
+        gc.collect()
+    # second lifetime: resume from the checkpoint taken at `resume_at` and keep checking every checkpoint
+    if bad is None and saved is not None:
+        with vsched.Session(seed + 1, adversarial=(pol == "adversarial")) as s:
+            torch.manual_seed(6)
+            loader = sdl.build(cfg)
+            loader.load_state_dict(pickle.loads(saved[0]))
+            yielded = list(saved[1])
+            try:
+                it = iter(loader)
+                while True:
+                    s.begin_op()
+                    sd = loader.state_dict()
+                    bad = _verify(cfg, sd, yielded, W, 0, 1, resumed_from=saved[1])
+                    if bad:
+                        bad = ("after resume at %d" % resume_at,) + bad[1:]
+                        break
+                    o = sdl.take(it, s)
+                    if o[0] != "item":
+                        break
+                    yielded.append(o[1] if isinstance(o[1], list) else [o[1]])
+            except Exception:
+                pass  # resume failures are C01's business
+            del loader
+            it = None
+            gc.collect()
+    ctx.case("ko_loader_snapshots", [cfg, pol, resume_at], W >= 2 and cfg["kind"] in ("iter_inplace", "iter_it_state", "iter_bump"))
+    ctx.count("loader_kind:" + cfg["kind"])
+    if bad:
+        ctx.fail("loader_snapshot", job,
+                 f"epoch {bad[0]}, after {bad[1]} batches (snapshot step {bad[5]}): checkpoint holds {bad[3]} for worker {bad[2]} but that worker's state after its last yielded batch was {bad[4]}")
+
+
+def run(ctx: Ctx):
+    jobs = []
+    for i in range(ctx.n(60, 1200)):
+        cfg = sdl.gen_cfg(ctx.rng, kinds=["iter_inplace", "iter_inplace", "iter_it_state", "iter_ds_state", "map_stateful", "iter_ds_eager", "iter_bump", "iter_bump"], allow_shuffle=False)
+        if cfg["W"] == 0:
+            cfg["W"] = ctx.rng.choice([1, 2, 3])
+            cfg["pf"] = ctx.rng.choice([1, 2, 3])
+            cfg["persistent"] = False
+            if sdl.is_iter(cfg):
+                cfg["sizes"] = (cfg["sizes"] * 4)[: cfg["W"]]
+        if cfg["kind"] == "map_stateful":
+            cfg["sampler"] = "seq"
+            if cfg["bs"] is None:
+                cfg["bs"] = 2
+        if cfg.get("drop_last"):
+            cfg["drop_last"] = False  # with drop_last a worker pulls items it never yields: position != yielded items
+        jobs.append({"cfg": cfg, "seed": ctx.rng.randrange(1 << 30), "policy": ctx.rng.choice(sdl_ko.POLICIES),
+                     "resume_at": ctx.rng.choice([None, 0, 1, 2, 3, 4])})
+    ctx.pmap(check, jobs)
+
+
 def replay(inp):
-    return True, "stub"
+    sub = Ctx("C07", "quick", 0)
+    check(sub, inp)
+    if sub.failures:
+        return False, sub.failures[0].what
+    return True, "worker snapshots equal the reported states"
